@@ -482,9 +482,16 @@ func (x *Exec) complexOp(op token.Token, a, b *Struct, is64 bool) Value {
 		im := B.FPBin("fp.add", B.FPBin("fp.mul", ar, bi), B.FPBin("fp.mul", ai, br))
 		return &Struct{[]Value{re, im}}
 	case token.QUO:
-		x.note("complex division: runtime.complex128div as an uninterpreted deterministic function")
-		s := ar.S
-		return &Struct{[]Value{B.UF("cdiv_re_"+fmt.Sprint(s.M), s, ar, ai, br, bi), B.UF("cdiv_im_"+fmt.Sprint(s.M), s, ar, ai, br, bi)}}
+		x.note("complex division: runtime.complex128div as an uninterpreted deterministic function; complex64 division is computed in complex128 and narrowed (as cmd/compile does)")
+		if is64 {
+			ar, ai, br, bi = B.FPConv(ar, smt.FP64), B.FPConv(ai, smt.FP64), B.FPConv(br, smt.FP64), B.FPConv(bi, smt.FP64)
+		}
+		re := B.UF("cdiv_re", smt.FP64, ar, ai, br, bi)
+		im := B.UF("cdiv_im", smt.FP64, ar, ai, br, bi)
+		if is64 {
+			return &Struct{[]Value{B.FPConv(re, smt.FP32), B.FPConv(im, smt.FP32)}}
+		}
+		return &Struct{[]Value{re, im}}
 	}
 	unsupported("complex %s", op)
 	return nil
